@@ -1,5 +1,8 @@
 import SuxModel.RankSel.Small.LemmasCheck
+import SuxModel.RankSel.Small.LemmasCheckZero
+import SuxModel.RankSel.Small.LemmasLayer
 import SuxModel.RankSel.Select9.LemmasCheck
+import SuxModel.RankSel.Select9.LemmasBuildInv
 /-!
 # C02 — Select9 / SelectSmall / SelectZeroSmall return the bit of rank `r`
 
@@ -70,6 +73,82 @@ example : ∃ p, Small.select (Priv.smallParams 1) false exWs exLen (numOnes exW
     (Small.viewOf (Priv.smallParams 1) exWs exLen) exSel 40 = .ok (some p) ∧ IsSelect exWs exLen 40 p :=
   (small_select_query_correct 1 exWs exLen (by decide) exSel exSel_inv 40).1 (by decide)
 
+/-! ## SelectZeroSmall, query from invariant -/
+
+/-- `SelectZeroSmall::<3,13,_>::with_inv(rank_small![4; bits], 2)` built by the model -/
+def exSelZ : Small.Sel :=
+  match Small.buildWithInv (Priv.smallParams 4) true exWs exLen (numZeros exWs exLen) 2 with
+  | .ok s => s
+  | _ => { inv := #[], begin := #[], l := 0 }
+
+/-- (Q) `SelectZeroSmall` over `RankSmall` variant `k`: from `SelInvOK` (zero polarity),
+`select_zero r` returns `ok (some p)` with `IsSelectZero ws len r p` for `r < numZeros`, `ok none`
+for `r ≥ numZeros`; never `oob` / `panic`.  No hypothesis on the length (the unclipped
+`last_block_idx` of the zero selector is harmless because its block search is linear). -/
+theorem small_select_zero_query_correct (k : Nat) (ws : Array Nat) (len : Nat) (hlen : len ≤ 64 * ws.size)
+    (s : Small.Sel) (hinv : Small.SelInvOK true ws len s) (r : Nat) :
+    (r < numZeros ws len → ∃ p, Small.select (Priv.smallParams k) true ws len (numZeros ws len)
+        (Small.viewOf (Priv.smallParams k) ws len) s r = .ok (some p) ∧ IsSelectZero ws len r p) ∧
+    (numZeros ws len ≤ r → Small.select (Priv.smallParams k) true ws len (numZeros ws len)
+        (Small.viewOf (Priv.smallParams k) ws len) s r = .ok none) :=
+  Small.small_select_zero_correct k ws len hlen s hinv r
+
+theorem exSelZ_inv : Small.SelInvOK true exWs exLen exSelZ :=
+  Small.selInvCheck_sound true exWs exLen exSelZ (by decide +kernel)
+
+example : ∃ p, Small.select (Priv.smallParams 4) true exWs exLen (numZeros exWs exLen)
+    (Small.viewOf (Priv.smallParams 4) exWs exLen) exSelZ 70 = .ok (some p) ∧ IsSelectZero exWs exLen 70 p :=
+  (small_select_zero_query_correct 4 exWs exLen (by decide) exSelZ exSelZ_inv 70).1 (by decide +kernel)
+
+/-! ## SelectSmall / SelectZeroSmall, builder establishes the invariant -/
+
+/-- (B) `SelectSmall::with_inv` / `SelectZeroSmall::with_inv` (`zero = true`) over ANY backend
+`(ws, len)` with `len ≤ 64 * ws.size` (stale bits at or beyond `len`, extra words allowed; no
+`WordsOK` needed) return a structure satisfying `SelInvOK`, provided the two overflow-checked
+products of `with_inv` do not overflow (otherwise the dev-profile code panics; the release code wraps,
+which only changes `log2_ones_per_inventory`, and `buildNew_inv` holds for every value of it). -/
+theorem small_build_establishes_inv (k : Nat) (zero : Bool) (ws : Array Nat) (len b : Nat)
+    (hlen : len ≤ 64 * ws.size)
+    (h1 : b * ((Priv.smallParams k).wpb * 64) < 2 ^ 64)
+    (h2 : cnt (polBit zero ws) len * (b * ((Priv.smallParams k).wpb * 64)) < 2 ^ 64) :
+    ∃ s, Small.buildWithInv (Priv.smallParams k) zero ws len (cnt (polBit zero ws) len) b = .ok s ∧
+      Small.SelInvOK zero ws len s :=
+  Small.buildWithInv_inv (Priv.smallParams k) zero ws len b hlen h1 h2
+
+example : ∃ s, Small.buildWithInv (Priv.smallParams 1) false exWs exLen (cnt (polBit false exWs) exLen) 1 = .ok s ∧
+    Small.SelInvOK false exWs exLen s :=
+  small_build_establishes_inv 1 false exWs exLen 1 (by decide) (by decide) (by decide +kernel)
+
+/-- end to end: the layer `.ss k b` (what `modelOf` returns, `b = none` is `new`) answers `select` -/
+theorem small_layer_select_correct (k : Nat) (b : Option Nat) (ws : Array Nat) (len : Nat)
+    (hlen : len ≤ 64 * ws.size)
+    (h1 : b.getD 8 * ((Priv.smallParams k).wpb * 64) < 2 ^ 64)
+    (h2 : numOnes ws len * (b.getD 8 * ((Priv.smallParams k).wpb * 64)) < 2 ^ 64) :
+    ∃ f, (Small.layer ws len (numOnes ws len) k b).select = some f ∧ ∀ r,
+      (r < numOnes ws len → ∃ p, f r = .ok (some p) ∧ IsSelect ws len r p) ∧
+      (numOnes ws len ≤ r → f r = .ok none) :=
+  Small.layer_correct k b ws len hlen h1 h2
+
+example : ∃ f, (Small.layer exWs exLen (numOnes exWs exLen) 3 none).select = some f ∧ ∀ r,
+      (r < numOnes exWs exLen → ∃ p, f r = .ok (some p) ∧ IsSelect exWs exLen r p) ∧
+      (numOnes exWs exLen ≤ r → f r = .ok none) :=
+  small_layer_select_correct 3 none exWs exLen (by decide) (by decide) (by decide +kernel)
+
+/-- end to end: the layer `.szs k b` answers `select_zero` -/
+theorem small_layer_select_zero_correct (k : Nat) (b : Option Nat) (ws : Array Nat) (len : Nat)
+    (hlen : len ≤ 64 * ws.size)
+    (h1 : b.getD 8 * ((Priv.smallParams k).wpb * 64) < 2 ^ 64)
+    (h2 : numZeros ws len * (b.getD 8 * ((Priv.smallParams k).wpb * 64)) < 2 ^ 64) :
+    ∃ f, (Small.layerZero ws len (numOnes ws len) k b).selectZero = some f ∧ ∀ r,
+      (r < numZeros ws len → ∃ p, f r = .ok (some p) ∧ IsSelectZero ws len r p) ∧
+      (numZeros ws len ≤ r → f r = .ok none) :=
+  Small.layerZero_correct k b ws len hlen h1 h2
+
+example : ∃ f, (Small.layerZero exWs exLen (numOnes exWs exLen) 0 (some 64)).selectZero = some f ∧ ∀ r,
+      (r < numZeros exWs exLen → ∃ p, f r = .ok (some p) ∧ IsSelectZero exWs exLen r p) ∧
+      (numZeros exWs exLen ≤ r → f r = .ok none) :=
+  small_layer_select_zero_correct 0 (some 64) exWs exLen (by decide) (by decide) (by decide +kernel)
+
 /-! ## Select9, query from invariant -/
 
 /-- (Q) `Select9`: from the explicit invariant `S9InvOK` on the built arrays (inventory entries are
@@ -89,5 +168,35 @@ theorem exS9_inv : Select9.S9InvOK exWs9 exLen9 exS9 :=
 example : ∃ p, Select9.select exWs9 (Select9.viewOf exWs9 exLen9) (numOnes exWs9 exLen9) exS9 700 = .ok (some p) ∧
     IsSelect exWs9 exLen9 700 p :=
   (select9_query_correct exWs9 exLen9 (by decide) (by decide) exS9 exS9_inv 700).1 (by decide +kernel)
+
+/-! ## Select9, builder (partial)
+
+Full statement of (B) for Select9 (NOT proved; covered per instance by the sound decidable check
+`Select9.s9InvCheck`, which evaluates to `true` on the model-built — and, by the `parts` tie, the
+real — arrays of every span class, see the report):
+
+  theorem select9_build_establishes_inv (ws : Array Nat) (len : Nat) (hlen : len ≤ 64 * ws.size)
+      (hl64 : len < 2 ^ 64) :
+      ∃ s, Select9.build ws len (numOnes ws len) (Select9.viewOf ws len) = .ok s ∧ Select9.S9InvOK ws len s
+
+Proved: the first phase (inventory).  Missing: the second phase (`subLoop`: the 16-bit counter fills
+of classes 2..=127 and the position scans of classes ≥ 128, their debug assertions and their frame
+condition). -/
+
+/-- (B), partial: the inventory loop of `Select9::new` over ALL backend words (with the
+`.min(num_ones - curr)` clipping) returns `⌈N/512⌉` entries, entry `i` is the position of the one of
+rank `512 i`; after pushing `((num_words + 3) & !3) * 64` the `assert!` on the length holds and the
+`invSize` / `iszEq` / `entry` / `sentinel` parts of `S9InvOK` are established. -/
+theorem select9_build_inventory_partial (ws : Array Nat) (len : Nat) (hlen : len ≤ 64 * ws.size)
+    (hl64 : len < 2 ^ 64) :
+    ∃ inv0, Select9.invLoop (cnt (polBit false ws) len) ws.toList 0 #[] 0 0 = .ok inv0 ∧
+      (inv0.push (Priv.andNot ((len + 63) / 64 + 3) 3 * 64)).size = (cnt (polBit false ws) len + 511) / 512 + 1 ∧
+      (∀ i e, IsSel (polBit false ws) len (i * 512) e →
+        (inv0.push (Priv.andNot ((len + 63) / 64 + 3) 3 * 64)).getD i 0 = e) ∧
+      (inv0.push (Priv.andNot ((len + 63) / 64 + 3) 3 * 64)).getD ((cnt (polBit false ws) len + 511) / 512) 0
+        = Select9.sentinelOf len :=
+  Select9.build_inventory_partial ws len hlen hl64
+
+example := select9_build_inventory_partial exWs9 exLen9 (by decide) (by decide)
 
 end Sux.RS
